@@ -21,6 +21,7 @@ Inductive trap_err : Type :=
 | E_dur_short_rise     (* ValueError  'The `duration` is too short for the given `rise_time`' :173 *)
 | E_not_possible       (* AssertionError 'Requested area is too large ... Probably'       :181 *)
 | E_must_rise          (* ValueError  'Must supply `rise_time` when `area` and `flat_time`' :190 (dead) *)
+| E_dur_inconsistent   (* ValueError  'The `duration` is inconsistent ...' (proposed repair; only if trap_flat_checks_duration) *)
 | E_ni_flat_area_dur   (* NotImplementedError 'Flat Area + Duration'                      :205 *)
 | E_area_or_duration   (* ValueError  'Must supply area or duration.'                     :223 *)
 | E_amp                (* ValueError  'Refined amplitude ... is larger than max'          :233 *)
@@ -96,6 +97,16 @@ Definition shortest_rise_time (amp max_slew raster : Q) : Q :=
 (* ---- the three calculation paths: each yields (amplitude2, rise_time, flat_time, fall_time) ------ *)
 Definition path_out : Type := (Q * option Q * Q * option Q)%type.
 
+(* Two repairs are proposed but not necessarily in the repository; the translator reads which form the
+   source has (Gen/GenTrap.v) and fails closed unless it is the expected one:
+     trap_possible_tolerant    `duration >= rise + fall - eps` and flat_time = max(duration - rise - fall, 0.0)
+                               instead of the exact test and the plain difference (:180, :185);
+     trap_flat_checks_duration area + flat_time + ramps rejects a `duration` that differs from
+                               rise + flat + fall by more than eps instead of ignoring it (:192). *)
+Definition dur_tol : Q := if trap_possible_tolerant then eps else 0.
+Definition dur_flat (d r f : Q) : Q :=
+  if trap_possible_tolerant then Qmax (d - r - f) 0 else d - r - f.                             (* :185 *)
+
 Definition area_path (area : Q) (dur ft rise0 fall0 : option Q) (max_grad max_slew raster : Q)
   : tresult path_out :=
   match dur, ft with
@@ -106,7 +117,7 @@ Definition area_path (area : Q) (dur ft rise0 fall0 : option Q) (max_grad max_sl
       let min_dur := r + fl + f in                                            (* :164 *)
       if Qltb d min_dur then Err E_min_duration else                          (* :165 assert *)
       (* :170-171 compute a value that is overwritten at :186 (not modelled) *)
-      let flat := d - r - f in                                                (* :185 *)
+      let flat := dur_flat d r f in                                           (* :185 *)
       let den := r / 2 + f / 2 + flat in
       if isz den then Err E_zerodiv else
       OK (area / den, Some r, flat, Some f)                                   (* :186 *)
@@ -116,9 +127,9 @@ Definition area_path (area : Q) (dur ft rise0 fall0 : option Q) (max_grad max_sl
       let d1 := d - (1 # 2) * r - (1 # 2) * f in
       if isz d1 then Err E_zerodiv else
       let amp := area / d1 in                                                 (* :179 *)
-      if negb (Qle_bool (r + f) d && Qle_bool (Qabs amp) max_grad)            (* :180 *)
+      if negb (Qle_bool (r + f - dur_tol) d && Qle_bool (Qabs amp) max_grad)  (* :180 *)
       then Err E_not_possible else
-      let flat := d - r - f in                                                (* :185 *)
+      let flat := dur_flat d r f in                                           (* :185 *)
       let den := r / 2 + f / 2 + flat in
       if isz den then Err E_zerodiv else
       OK (area / den, Some r, flat, Some f)                                   (* :186 *)
@@ -130,6 +141,9 @@ Definition area_path (area : Q) (dur ft rise0 fall0 : option Q) (max_grad max_sl
       match fall0 with
       | None => Err E_type
       | Some f =>
+        if trap_flat_checks_duration &&
+           match dur with Some d => Qltb eps (Qabs (d - (r + t + f))) | None => false end
+        then Err E_dur_inconsistent else                                      (* proposed repair *)
         let den := r / 2 + f / 2 + t in                                       (* :192 (repaired) *)
         if isz den then Err E_zerodiv else OK (area / den, Some r, t, Some f)
       end
